@@ -39,6 +39,10 @@ def cases(tier):
     c = configs()[0]; pts = path_types(c)
     some = [T for T in ('asset__file', 'asset__asset', 'shot__cache_node_file') if T in pts]
     for n in (0, 1, 2, 3): cs.append(('map', n, 'get')); cs.append(('map', n, 'do_get'))
+    import itertools as _it
+    for n in (1, 2, 3):
+        for recs in _it.product(('data', 'empty', 'none'), repeat=n):
+            cs.append(('map-abs', recs, 'get')); cs.append(('map-abs', recs, 'do_get'))
     for T in C.spec_templates():
         for enc in ('str', 'sym', 'none'):
             cs.append(('get_data', T, c, enc, False))
@@ -106,10 +110,38 @@ def run(it, st, case):
     kind = case[0]
     c = configs()[0]
     if kind == 'map': return run_map(it, st, case[1], case[2], c)
+    if kind == 'map-abs': return run_map_abs(it, st, case[1], case[2])
     if kind == 'get_data': return run_get_data(it, st, *case[1:])
     if kind == 'all': return run_all(it, st, case[1], case[2])
     if kind == 'one': return run_one(it, st, case[1])
     if kind == 'all-get': return run_all_get(it, st, c)
+
+def run_map_abs(it, st, recs, meth):
+    """GetByFinder.get / do_get with get_data ABSTRACT: whatever get_data returns for a found Sid (a record, an empty record, None), the result has one
+    entry per found Sid, in order: that record, or {} when it is empty / None; attributes and sid_encode are passed through unchanged"""
+    gf = it.module('spil.sid.read.getters.getter_finder'); GBF = gf.ns['GetByFinder']
+    xs = [C.mk_concrete(it, T)[0] for T in list(C.spec_templates())[:len(recs)]]
+    table = {}
+    for i, (x, kind) in enumerate(zip(xs, recs)):
+        table[id(x)] = PDict([('sid', st.fresh_str(f'r{i}s_')), ('a', st.fresh_str(f'r{i}a_'))]) if kind == 'data' else PDict([]) if kind == 'empty' else None
+    calls = []; ATTRS = ['a', 'b']; ENC = PBuiltin(lambda it_, x: 'enc', 'enc')
+    def find(it_, search_sid=None, as_sid=True, **k): calls.append(('find', as_sid)); return GenList(list(xs))
+    def do_find(it_, search_sids=None, as_sid=True, **k): calls.append(('do_find', as_sid)); return GenList(list(xs))
+    FS_ = PClass('StubFinder', [V.OBJECT]); FS_.ns['find'] = PBuiltin(find, 'find'); FS_.ns['do_find'] = PBuiltin(do_find, 'do_find')
+    passed = []
+    def get_data(it_, sid=None, attributes=None, sid_encode=None, **k): passed.append((attributes, sid_encode)); return table[id(sid)]
+    stub = PClass('StubGetter', [GBF], gf); stub.ns['get_data'] = PBuiltin(get_data, 'get_data')
+    g = PObj(stub); g.attrs['finder'] = PObj(FS_)
+    st.inputs['records'] = list(recs); name = f'C16:GetByFinder.{meth}[abstract get_data]'
+    try:
+        r = list(it.call(it.getattr(g, meth), ['q'] if meth == 'get' else [list(xs)], {'attributes': ATTRS, 'sid_encode': ENC}))
+    except Raised as e:
+        st.oblige(f'{name}:raises-nothing', False, ('C16',), info={'exception': V.exc_name(e), 'args': repr(e.exc.attrs.get('args'))[:120]}); st.observed = {}; return 'ok'
+    st.observed = {}
+    ok = len(r) == len(xs) and all((d is table[id(x)]) if recs[i] == 'data' else (isinstance(d, PDict) and not d.items) for i, (d, x) in enumerate(zip(r, xs)))
+    st.oblige(f'{name}:one-record-per-found-sid-in-order-an-empty-one-where-there-is-no-data', ok, ('C16',), info={'records': len(r), 'found': len(xs), 'kinds': list(recs)})
+    st.oblige(f'{name}:attributes-and-sid_encode-are-passed-through', len(passed) == len(xs) and all(a is ATTRS and e is ENC for a, e in passed), ('C16',))
+    return 'ok'
 
 def run_map(it, st, n, meth, c):
     Ts = [T for T in ('asset__file', 'asset__asset', 'shot__shot') if T in path_types(c)][:max(n, 1)]
@@ -247,4 +279,20 @@ def replay(case, ob, inputs):
         r = C.call_native(lambda: GetFromPaths().get_data(x, sid_encode=lambda s: ''))
         bad = r[0] == 'ret' and 'sid' not in r[1]
         return {'confirmed': bad, 'call': "GetFromPaths().get_data(Sid('hamlet/a/char/ophelia'), sid_encode=lambda s: '')", 'observed': repr(r)[:200], 'expected': "a record with 'sid': '' (only None omits the entry)"}
+    if case[0] == 'all':
+        import ast, inspect
+        from spil import GetFromAll, Sid
+        import spil_data_conf
+        T = case[1]; none_types = set()
+        for fn in [n for n in ast.walk(ast.parse(open(spil_data_conf.__file__).read())) if isinstance(n, ast.FunctionDef) and n.name == 'get_getter_for']:
+            for d in [n for n in ast.walk(fn) if isinstance(n, ast.Dict)]:
+                none_types |= {k.value for k, v in zip(d.keys, d.values) if isinstance(k, ast.Constant) and isinstance(v, ast.Constant) and v.value is None}
+        x = Sid(T + ':' + '/'.join(v for _, v in C.example_values(T)))
+        C.clear_native_caches()
+        r = C.call_native(lambda: (GetFromAll().get_data(x), list(GetFromAll().get(x))))
+        if T in none_types:
+            bad = r != ('ret', ({}, []))
+            return {'confirmed': bad, 'call': f"GetFromAll().get_data / get of {x.uri!r}, a type configured with None in spil_data_conf.get_getter_for", 'observed': repr(r)[:300], 'expected': "({}, []): nothing, without failing",
+                    'reproducer': f"from spil import GetFromAll, Sid; print(GetFromAll().get_data(Sid({x.uri!r})))"}
+        return {'confirmed': r[0] != 'ret', 'call': f'GetFromAll().get_data({x.uri!r})', 'observed': repr(r)[:300], 'expected': 'the record of the configured getter'}
     return {'confirmed': False, 'call': repr(case), 'observed': repr(ob.get('info')), 'expected': 'see the contract clause named by the obligation'}
